@@ -141,4 +141,14 @@ U(name="U.api.encode", harness="harness/api_encode.c", mode="H", profiles=["enco
   functions=["polyseed_encode"], exact_loops=[("polyseed_encode", 0, 15)], unwind=POLYSEED_STR_SIZE_PLUS1,
   props=["C03", "C01", "C05", "C13", "C16", "C17"], timeout=1800, mem_gb=32)
 
+U(name="L.rt.index", harness="harness/lem_roundtrip.c", mode="P", props=["C01", "C05", "C04", "C10", "C11"])
+U(name="L.kdf.injective", harness="harness/lem_roundtrip.c", mode="P", defines=["LEMMA_KDF"], props=["C04"])
+U(name="L.st.inv1", harness="harness/lem_storage.c", mode="L", replace=["polyseed_data_store", "polyseed_data_load"], props=["C06", "C11", "C10"])
+U(name="L.st.inv2", harness="harness/lem_storage.c", mode="L", defines=["LEMMA_INV2"], replace=["polyseed_data_store", "polyseed_data_load"], props=["C06"])
+U(name="U.lang.registry", harness="harness/lang_registry.c", mode="P", object_bits=14,
+  functions=["polyseed_get_num_langs", "polyseed_get_lang", "polyseed_get_lang_name", "polyseed_get_lang_name_en"], props=["C07"])
+U(name="U.dep.inject", harness="harness/dep_inject.c", mode="D", enforce="polyseed_inject",
+  replace=["polyseed_get_num_langs", "polyseed_get_lang", "polyseed_lang_check"],
+  functions=["polyseed_inject"], props=["C18", "C13", "C20"])
+
 BY_NAME = {u.name: u for u in UNITS}
